@@ -217,6 +217,20 @@ def run_trading(rnd, S, cfgk, intensity=1.0, script=None, analyser=False, ids=No
                     r2 = close_fn(oid, 3)
                     return [r0, r1, r2]
                 out.append(f2)
+        mm_ = (cfgk.get("base_extra") or {}).get("margin_multiplier", 1)
+        if futs and "FUTURE" in context.portfolio.accounts and mm_ != 1 and day == 3 and reseed_key is None:
+            def f6(call, before, oid=futs[0]):
+                # an opening futures order whose margin WITH the configured margin multiplier exceeds the available cash (and without it would not)
+                frec = next(x for x in S["futures"] if x["id"] == oid)
+                price = env.get_last_price(oid)
+                cash = context.portfolio.accounts["FUTURE"].cash
+                call.update(api="plan_future_cash_edge", args=(oid,))
+                unit = price * frec["mult"] * frec["info"]["margin_rate"]
+                if not (price == price and price > 0 and cash > 3 * unit * mm_):
+                    return []
+                q = int(cash / (unit * mm_)) + 1
+                return [api.buy_open(oid, q)]
+            out.append(f6)
         if plan["cash_edge_day"] and day == plan["cash_edge_day"]:
             def f3(call, before):
                 # a resting limit buy reserves about half of the available cash; a second purchase of about 70% of it must be refused
